@@ -204,21 +204,6 @@ fn run(mode: &str, nthreads: usize, ngens: usize, iters: usize) -> String {
             _ => return "bad request-after-last-swap-did-not-use-the-new-catalog".to_string(),
         }
     }
-    // ... and a request handled after a key-set replacement returned must use the new key set: revoke every key
-    // (the empty set), then install a key again
-    if use_keys {
-        let j = ngens; // a key no earlier generation holds
-        let status = |server: &Server<Cat>| call(server, &query(1, 0, Some(j))).map(|r| r[3] & 15);
-        server.set_tsig_keys(keys(j));
-        if status(&server) == Some(9) {
-            return "bad request-after-last-key-swap-did-not-use-the-new-key-set".to_string();
-        }
-        server.set_tsig_keys(Arc::new(TsigKeyMap::new()));
-        if status(&server) != Some(9) {
-            return "bad request-after-all-keys-were-revoked-still-verified".to_string();
-        }
-        server.set_tsig_keys(keysets[ngens - 1].clone());
-    }
     let last_cat = if swap_cat { ngens - 1 } else { 0 };
     let last_key = if use_keys { ngens - 1 } else { 0 };
 
@@ -262,6 +247,22 @@ fn run(mode: &str, nthreads: usize, ngens: usize, iters: usize) -> String {
                 }
             }
         }
+    }
+    // a request handled after a key-set replacement returned must use the new key set: install a fresh key, revoke
+    // every key (the empty set), install the last generation again.  Done AFTER the queriers were joined: their
+    // observations are judged against the swapper's generations only.
+    if use_keys {
+        let j = if empty_gen(ngens) { ngens + 1 } else { ngens }; // a key no earlier generation holds
+        let status = |server: &Server<Cat>| call(server, &query(1, 0, Some(j))).map(|r| r[3] & 15);
+        server.set_tsig_keys(keys(j));
+        if status(&server) == Some(9) {
+            return "bad request-after-last-key-swap-did-not-use-the-new-key-set".to_string();
+        }
+        server.set_tsig_keys(Arc::new(TsigKeyMap::new()));
+        if status(&server) != Some(9) {
+            return "bad request-after-all-keys-were-revoked-still-verified".to_string();
+        }
+        server.set_tsig_keys(keysets[ngens - 1].clone());
     }
     if swap_cat && seen_cat.len() < 2 {
         return format!("trivial only-{}-generation(s)-observed n={n}", seen_cat.len());
